@@ -1,3 +1,6 @@
+import os
+
+from .. import core
 from ..chanprop import ChanSpec
 from .c01 import C01
 
@@ -14,9 +17,29 @@ class C10(ChanSpec):
                   "returns, payloads of every pool class incl. > 65536 bytes are used, a foreign pool user obtains / scribbles on / returns buffers of five size classes while the sender "
                   "batches and recycles, under controlled interleavings; the property predicate compares every transport unit with the call-time payload.")
     level_note = C01.level_note + " The heap model's step from code to ownership (asyncWrite copies unless the buffer was obtained from the pool by the channel itself; writeOnce recycles after Writev) is read off the source and validated through its effect on transmitted bytes; exclusive hand-out by the pool is C19's theorem."
-    rule = C01.rule + "; every write op has the overwrite flag; 1/12 of single-buffer ops carry 65537-65539 bytes; 1/2 of the scenarios add a goroutine that gets / scribbles on / returns pooled buffers of 1, 16, 700, 2048 and 65536 bytes with a scheduling point while it holds each"
+    rule = C01.rule + "; every write op has the overwrite flag; 1/12 of single-buffer ops carry 65537-65539 bytes; 1/2 of the scenarios add a goroutine that gets / scribbles on / returns pooled buffers of 1, 16, 700, 2048 and 65536 bytes with a scheduling point while it holds each; plus 300 (thorough 8000) messages of every carrier type incl. multi-chunk readers returning data together with EOF through the real head handler on a queued channel with a stalled sender, caller and pool scribbling in between"
     assumptions = C01.assumptions
     modelled_not_verified = C01.modelled_not_verified + ("buffer identity (the heap model is not monitored step by step)",)
+
+
+    def harness(self, seed, count, tier):
+        lines = super().harness(seed, count, tier)
+        # the streaming entry point (ReadFrom / reader-typed messages): message carriers through the real head handler on a
+        # queued channel whose sender is stalled while the caller reuses its storage and another pool user scribbles
+        rc, so, se = core.run([os.path.join(core.BIN, "nvh"), "-prop", "C14", "-seed", str(seed), "-count", str(300 if tier == "quick" else 8000)], timeout=1800)
+        lines += [l for l in so.split("\n") if l.startswith("C14 head") or l.startswith("#case")]
+        if rc != 0:
+            lines.append("C14 crash harness-exit-%d" % rc)
+        return lines
+
+    def nontrivial(self, line, answer):
+        t = line.split()
+        return t[1] == "end" or t[0] == "C14"
+
+    def extra_coverage(self, pairs):
+        cov = super().extra_coverage([(l, a) for l, a in pairs if not l.startswith("C14 ")])
+        cov["carrier_messages_compared"] = sum(1 for l, a in pairs if l.startswith("C14 "))
+        return cov
 
 
 SPEC = C10()
